@@ -12,17 +12,25 @@ from mc import space
 from mc.props.C01 import Probe
 
 ID = "C02"
-RULE = ("product explorer: (holder of an explicit integer-valued array) x (operation) x (mode designation: every non-empty "
+RULE = ("product explorer: (holder of an explicit integer-valued array, dense and coordinate holders in every storage dtype "
+        "that holds the values exactly) x (operation) x (mode designation: every non-empty "
         "ordered selection of modes as `dims` with multiplicand lists of length |dims| and N, and every subset via "
-        "`exclude_dims`).  Reference = explicit index sums of mc/refmodel.py on the expanded array; comparison is exact. "
+        "`exclude_dims`) x (value family of the multiplicands: small integers / the same integers times 1/2).  "
+        "Reference = explicit index sums of mc/refmodel.py on the expanded float64 array; comparison is exact. "
         "Non-trivial: the reference result has a non-zero entry and the operand has >= 2 cells.")
 ASSUMPTIONS = ["reference sums in mc/refmodel.py (einsum/tensordot on the expanded array)",
-               "integer values: all sums/products exact in float64", "holder type of results observed, not asserted"]
+               "integer operand values and integer or dyadic (k/2) multiplicand values: all sums/products exact in float64",
+               "integer storage dtypes are wide enough for the stored values (int64/int32, |value| < 2^15); boolean storage is "
+               "outside the scope (the library's matricized paths reject non-numeric data and numpy's boolean arithmetic is logical)",
+               "holder type of results observed, not asserted"]
 BOUNDS = {
-    "quick": "shapes order<=3,size<=3,cells<=8 + (2,2,2,2),(2,1,2,2); holders: dense (generic, half zero), sparse "
-             "(empty, one, <50%, >50%, full; identity+reversed order), Kruskal R=2 (weights 2,-1), Tucker dense/sparse core, "
-             "sums of 2 mixed parts; every designation; ttt all pairings; ttsv cubical order<=4",
-    "thorough": "shapes order<=4,size<=3,cells<=24; same operations",
+    "quick": "shapes order<=3,size<=3,cells<=8 + (2,2,2,2),(2,1,2,2); holders: dense (generic, half zero, grown), sparse "
+             "(empty, one, <50%, >50%, full; identity+reversed order), dense/sparse each stored as float64 and int64, "
+             "Kruskal R=2 (weights 2,-1), Tucker dense/sparse core, sums of 2 mixed parts; every designation; multiplicands "
+             "(ttv vectors, ttm matrices, mttkrp factors, scale factors, reconstruct matrix, ttsv vector, second ttt operand) "
+             "integer and half-integer; innerprod against every partner holder in both storage dtypes; ttt all pairings x "
+             "storage dtypes of both operands; ttsv cubical order<=4 x storage dtype",
+    "thorough": "shapes order<=4,size<=3,cells<=24; storage dtypes float64, int64, int32; same operations",
 }
 CHUNK = 4
 
@@ -49,7 +57,33 @@ def sparse_patterns(n):
     return out
 
 
-def holder_zoo(shape, seed, kinds=("tensor", "sptensor", "ktensor", "ttensor", "sumtensor")):
+# storage dtypes of explicit (dense / coordinate) holders besides float64; every cell value is a small odd integer, so
+# both hold the data exactly and the denoted array (the reference) is unchanged
+STORAGE_DTYPES = {"quick": ("int64",), "thorough": ("int64", "int32")}
+
+# value families of the multiplicands (vectors, matrices, factor matrices, scale factors, second ttt operand):
+# "int" = small integers, "half" = the same integers times 1/2 (dyadic, so every sum/product stays exact in float64,
+# but a result that is truncated / accumulated in the operand's integer storage dtype is wrong)
+MULT_FAMILIES = ("int", "half")
+
+
+def _mscale(mv):
+    return {"int": 1.0, "half": 0.5}[mv or "int"]
+
+
+def holder_zoo(shape, seed, kinds=("tensor", "sptensor", "ktensor", "ttensor", "sumtensor"), dtypes=("int64",)):
+    zoo = _holder_zoo_f64(shape, seed, kinds)
+    out = []
+    for h in zoo:
+        out.append(h)
+        if h["kind"] in ("tensor", "sptensor") and not h.get("grown"):
+            # the same array in every other storage dtype
+            for dt in dtypes:
+                out.append(dict(h, dtype=dt))
+    return out
+
+
+def _holder_zoo_f64(shape, seed, kinds):
     n = prod(shape)
     s = list(shape)
     zoo = []
@@ -83,27 +117,50 @@ def holder_zoo(shape, seed, kinds=("tensor", "sptensor", "ktensor", "ttensor", "
 
 
 def gen_cases(tier, seed):
+    dts = STORAGE_DTYPES[tier]
     for shape in _shapes(tier):
-        for h in holder_zoo(shape, seed):
-            for chk in ("ttv", "mttkrp", "norm_inner"):
-                yield {"check": chk, "h": h}
-            if h["kind"] in ("tensor", "sptensor", "ttensor"):
-                yield {"check": "ttm", "h": h}
-            if h["kind"] in ("tensor", "sptensor"):
-                yield {"check": "reduce", "h": h}
+        for h in holder_zoo(shape, seed, dtypes=dts):
+            for mv in MULT_FAMILIES:
+                # "mv" is only written for the non-default family (older replay files stay valid)
+                fam = {} if mv == "int" else {"mv": mv}
+                for chk in ("ttv", "mttkrp"):
+                    yield dict({"check": chk, "h": h}, **fam)
+                if h["kind"] in ("tensor", "sptensor", "ttensor"):
+                    yield dict({"check": "ttm", "h": h}, **fam)
+                if h["kind"] in ("tensor", "sptensor"):
+                    # collapse / contract have no multiplicand: only the scale part is repeated per family
+                    yield dict({"check": "reduce", "h": h}, **(fam and dict(fam, part="scale")))
+                if h["kind"] == "ttensor":
+                    yield dict({"check": "reconstruct", "h": h}, **fam)
+            yield {"check": "norm_inner", "h": h, "dts": list(dts)}
             if h["kind"] in ("tensor", "sptensor", "ktensor"):
                 yield {"check": "mask", "h": h}
-            if h["kind"] == "ttensor":
-                yield {"check": "reconstruct", "h": h}
-    # tensor times tensor: pairs of small dense tensors
+    # tensor times tensor: pairs of small dense tensors, each in every storage dtype, second operand in every value family
     tshapes = [s for s in space.shapes(3, 3, 8)] if tier == "quick" else space.shapes(3, 3, 12)
     for sa in tshapes:
         for sb in tshapes:
             if prod(sa) * prod(sb) <= (64 if tier == "quick" else 144):
-                yield {"check": "ttt", "sa": list(sa), "sb": list(sb), "vseed": seed}
+                for dta in (None,) + dts:
+                    for dtb in (None,) + dts:
+                        for mv in MULT_FAMILIES:
+                            if mv == "half" and dtb:
+                                continue  # a fractional array has no exact integer storage
+                            c = {"check": "ttt", "sa": list(sa), "sb": list(sb), "vseed": seed}
+                            if dta or dtb:
+                                c["dt"] = [dta, dtb]
+                            if mv != "int":
+                                c["mv"] = mv
+                            yield c
     for shape in [(2, 2), (3, 3), (2, 2, 2), (3, 3, 3), (2, 2, 2, 2)] + ([(3, 3, 3, 3), (2, 2, 2, 2, 2)] if tier == "thorough" else []):
         for pat in (None, "half"):
-            yield {"check": "ttsv", "shape": list(shape), "pat": pat, "vseed": seed}
+            for dt in (None,) + dts:
+                for mv in MULT_FAMILIES:
+                    c = {"check": "ttsv", "shape": list(shape), "pat": pat, "vseed": seed}
+                    if dt:
+                        c["dtype"] = dt
+                    if mv != "int":
+                        c["mv"] = mv
+                    yield c
 
 
 def run_case(case, ctx):
@@ -134,8 +191,8 @@ def _kw(kw, form):
     return {k: list(v) for k, v in kw.items()}
 
 
-def _vec(shape, m, seed):
-    return np.array(space.int_vector(shape[m], salt=2 * m + 1, seed=seed))
+def _vec(shape, m, seed, mv=None):
+    return np.array(space.int_vector(shape[m], salt=2 * m + 1, seed=seed)) * _mscale(mv)
 
 
 def _nontrivial(A, want):
@@ -197,7 +254,7 @@ def _run_ttv(case, ctx):
     kind = hd["kind"]
     seed = hd.get("vseed", 0) if "vseed" in hd else 0
     ctx.state()
-    vecs0 = [_vec(shape, m, seed) for m in range(N)]
+    vecs0 = [_vec(shape, m, seed, case.get("mv")) for m in range(N)]
     # second multiplicand family: a zero component (a product that vanishes must not stay behind as a stored zero)
     vecsz = [v.copy() for v in vecs0]
     for v in vecsz:
@@ -254,7 +311,7 @@ def _run_ttm(case, ctx):
     seed = hd.get("vseed", 0)
     ctx.state()
     J = 4
-    mats = [np.array(space.int_matrix(J, shape[m], salt=3 * m + 1, seed=seed)) for m in range(N)]
+    mats = [np.array(space.int_matrix(J, shape[m], salt=3 * m + 1, seed=seed)) * _mscale(case.get("mv")) for m in range(N)]
     items = []
     for label, kw, listed, sel in designations(N):
         for tr in (False, True):
@@ -307,7 +364,7 @@ def _run_mttkrp(case, ctx):
     seed = hd.get("vseed", 0)
     ctx.state()
     R = 2
-    U = [np.array(space.int_matrix(shape[m], R, salt=5 * m + 2, seed=seed)) for m in range(N)]
+    U = [np.array(space.int_matrix(shape[m], R, salt=5 * m + 2, seed=seed)) * _mscale(case.get("mv")) for m in range(N)]
     w = np.array([2.0, -1.0])
     if N < 2:
         ctx.inadm()  # mttkrp is documented as invalid for tensors with fewer than 2 dimensions
@@ -355,9 +412,9 @@ def _run_mttkrp(case, ctx):
                     ctx.fail("tensor.mttkrps", "wrong_value", "", variant=form, case=sub)
 
 
-def _partner_zoo(shape, seed):
-    """Second operands for innerprod (different values from the first)."""
-    return holder_zoo(shape, seed + 3, kinds=("tensor", "sptensor", "ktensor", "ttensor"))
+def _partner_zoo(shape, seed, dtypes=()):
+    """Second operands for innerprod (different values from the first), in every storage dtype."""
+    return holder_zoo(shape, seed + 3, kinds=("tensor", "sptensor", "ktensor", "ttensor"), dtypes=tuple(dtypes))
 
 
 _INNER_OK = {
@@ -387,7 +444,7 @@ def _run_norm_inner(case, ctx):
                 ctx.nontriv()
     if case.get("partner") == "none":
         return
-    partners = _partner_zoo(A.shape, hd.get("vseed", 0) if kind != "sumtensor" else 0)
+    partners = _partner_zoo(A.shape, hd.get("vseed", 0) if kind != "sumtensor" else 0, case.get("dts", ()))
     partners = [q for q in partners if q["kind"] in _INNER_OK[kind]]
     partners = _sel(case, "partner", partners, lambda x, d: x == d)
     for q in partners:
@@ -498,7 +555,7 @@ def _run_reduce(case, ctx):
             p = Probe(ctx, sub)
             X = H.build(hd)
             fshape = tuple(shape[d] for d in dims)
-            fvals = [float(2 + l) * (-1 if l % 2 else 1) for l in range(prod(fshape))]
+            fvals = [float(2 + l) * (-1 if l % 2 else 1) * _mscale(case.get("mv")) for l in range(prod(fshape))]
             if fkind == "vector_zero" or fkind == "sptensor":
                 fvals[0] = 0.0
             F = rm.arr(fshape, fvals)
@@ -576,7 +633,7 @@ def _run_reconstruct(case, ctx):
         ok, res = q.call("ttensor.reconstruct", lambda: X.reconstruct(np.array(idx), m), variant="rows")
         if ok and _value_ok(q, "ttensor.reconstruct", res, want, "rows") and _nontrivial(A, want):
             ctx.nontriv()
-        M = np.array(space.int_matrix(2, shape[m], salt=m))
+        M = np.array(space.int_matrix(2, shape[m], salt=m)) * _mscale(case.get("mv"))
         X = H.build(hd)
         want = rm.ttm(A, {m: M})
         ok, res = q.call("ttensor.reconstruct", lambda: X.reconstruct(M.copy(), m), variant="matrix")
@@ -599,6 +656,13 @@ def _run_ttt(case, ctx):
     seed = case["vseed"]
     ha = {"kind": "tensor", "shape": list(sa), "vseed": seed}
     hb = {"kind": "tensor", "shape": list(sb), "vseed": seed + 1}
+    dta, dtb = case.get("dt", [None, None])
+    if dta:
+        ha["dtype"] = dta
+    if dtb:
+        hb["dtype"] = dtb
+    if case.get("mv"):
+        hb["vals"] = [v * _mscale(case["mv"]) for v in space.dense_values(sb, None, seed + 1)]
     A, B = H.ref_array(ha), H.ref_array(hb)
     ctx.state()
     items = [("outer", [], [])]
@@ -637,8 +701,10 @@ def _run_ttsv(case, ctx):
     n = prod(shape)
     pat = [1 if i % 2 else 0 for i in range(n)] if case["pat"] == "half" else None
     hd = {"kind": "tensor", "shape": list(shape), "vseed": case["vseed"], "pat": pat}
+    if case.get("dtype"):
+        hd["dtype"] = case["dtype"]
     A = H.ref_array(hd)
-    v = np.array(space.int_vector(shape[0], salt=1, seed=case["vseed"]))
+    v = np.array(space.int_vector(shape[0], salt=1, seed=case["vseed"])) * _mscale(case.get("mv"))
     ctx.state()
     items = [(sd, ver) for sd in [None] + list(range(N - 1)) for ver in (None, 1, 2)]
     items = _sel(case, "arg", items, lambda x, d: list(x) == d)
